@@ -49,7 +49,7 @@ type State struct {
 	hashBuf  map[int][]Value
 	lockv    map[string]int
 	pools    map[int][]Value
-	ivSeq, ivLen, ivHLen, ivEvLen int
+	ivSeq, ivLen, ivHLen, ivEvLen, ivPcLen, ivCrcLen int
 	ivNoYield bool
 	// thread mode
 	threadMode bool
@@ -62,6 +62,9 @@ type State struct {
 	switched   bool // set when the current instruction gave up the CPU without completing
 	spawned    []Value
 	crcApps  [][]*Term
+	ivFacts   map[*Term]aval
+	boolFacts map[*Term]bool
+	factsN    int
 }
 
 func (st *State) clone() *State {
@@ -82,6 +85,17 @@ func (st *State) clone() *State {
 		lockv:    map[string]int{},
 		pools:    map[int][]Value{},
 		crcApps:  append([][]*Term(nil), st.crcApps...),
+	}
+	if st.ivFacts != nil {
+		n.ivFacts = make(map[*Term]aval, len(st.ivFacts))
+		for k, v := range st.ivFacts {
+			n.ivFacts[k] = v
+		}
+		n.boolFacts = make(map[*Term]bool, len(st.boolFacts))
+		for k, v := range st.boolFacts {
+			n.boolFacts[k] = v
+		}
+		n.factsN = st.factsN
 	}
 	for k, v := range st.hashBuf {
 		n.hashBuf[k] = v
@@ -201,6 +215,9 @@ type Engine struct {
 	pin       map[int]uint64
 	samples   []string
 	maxSwitch int
+	noAbs     bool
+	audit     bool
+	absHits   int
 }
 
 func (e *Engine) top(st *State) *Frame { return st.frames[len(st.frames)-1] }
@@ -228,6 +245,23 @@ func (e *Engine) eval(st *State, f *Frame, v ssa.Value) Value {
 	return r
 }
 
+// forkClone copies st as it was when the current instruction started (the
+// clone re-executes that instruction with a forced-decision prefix): variables,
+// events, path condition and the facts derived from it are rolled back.
+func (e *Engine) forkClone(st *State, lastDecision bool) *State {
+	cl := st.clone()
+	cl.varSeq = st.ivSeq
+	cl.noYield = st.ivNoYield
+	cl.vars = cl.vars[:st.ivLen]
+	cl.hvars = cl.hvars[:st.ivHLen]
+	cl.events = cl.events[:st.ivEvLen]
+	cl.pc = cl.pc[:st.ivPcLen]
+	cl.crcApps = cl.crcApps[:st.ivCrcLen]
+	cl.ivFacts, cl.boolFacts, cl.factsN = nil, nil, 0
+	cl.forced = append(append([]bool(nil), st.taken...), lastDecision)
+	return cl
+}
+
 // branch decides a symbolic condition, forking when both outcomes are feasible.
 func (e *Engine) branch(st *State, c *Term) bool {
 	if c.IsTrue() {
@@ -235,6 +269,24 @@ func (e *Engine) branch(st *State, c *Term) bool {
 	}
 	if c.IsFalse() {
 		return false
+	}
+	if !e.noAbs {
+		if r := st.implied(c); r != triUnknown {
+			e.absHits++
+			if e.audit {
+				neg := c
+				if r == triTrue {
+					neg = Not(c)
+				}
+				if a := e.solver.Check(st.pc, neg); a == "sat" {
+					panic(fmt.Sprintf("ABSINT UNSOUND: decided %v for %s under pc of %d conjuncts, solver disagrees", r == triTrue, c, len(st.pc)))
+				} else if a == "unsat" {
+					e.solver.Unsat-- // audit queries are not counted as work
+					e.solver.Queries--
+				}
+			}
+			return r == triTrue
+		}
 	}
 	if len(st.forced) > 0 {
 		d := st.forced[0]
@@ -261,13 +313,7 @@ func (e *Engine) branch(st *State, c *Term) bool {
 		panic(unsupported("solver unknown"))
 	}
 	if rf == "sat" {
-		cl := st.clone()
-		cl.varSeq = st.ivSeq
-		cl.noYield = st.ivNoYield
-		cl.vars = cl.vars[:st.ivLen]
-		cl.hvars = cl.hvars[:st.ivHLen]
-		cl.events = cl.events[:st.ivEvLen]
-		cl.forced = append(append([]bool(nil), st.taken...), false)
+		cl := e.forkClone(st, false)
 		e.pushFork(cl)
 		e.forks++
 	}
@@ -314,13 +360,7 @@ func (e *Engine) chooseFresh(st *State, v *Term, n int) (int, bool) {
 			continue
 		}
 		if k < n-1 {
-			cl := st.clone()
-			cl.varSeq = st.ivSeq
-			cl.noYield = st.ivNoYield
-			cl.vars = cl.vars[:st.ivLen]
-			cl.hvars = cl.hvars[:st.ivHLen]
-			cl.events = cl.events[:st.ivEvLen]
-			cl.forced = append(append([]bool(nil), st.taken...), false)
+			cl := e.forkClone(st, false)
 			e.pushFork(cl)
 			e.forks++
 		}
@@ -456,6 +496,7 @@ func (e *Engine) run(st *State) {
 		st.taken = st.taken[:0]
 		st.ivSeq, st.ivLen, st.ivNoYield = st.varSeq, len(st.vars), st.noYield
 		st.ivHLen, st.ivEvLen = len(st.hvars), len(st.events)
+		st.ivPcLen, st.ivCrcLen = len(st.pc), len(st.crcApps)
 		e.execSafe(st, f, in)
 	}
 }
